@@ -6,6 +6,23 @@ def configs(P, rng):
             {"name": "compiled -c", "args": ["-j1"], "compile": True, "compile_mode": "-o"},
             {"name": "compiled multi-file -C", "args": ["-j1"], "compile": True, "compile_mode": "-C"}]
 
+def post(res, Ps, cases, wd):
+    """T for compiled code (hook H6): the generated executable's statement trace is validated against spec/Ram.tla
+    executing the same RAM program (programs inside the RAM-machine fragment)."""
+    import random, concurrent.futures as cf
+    from .. import ramcheck
+    from ..common import seed
+    sel = [i for i, P in enumerate(Ps) if cases[i] and not P.get("types")][: (2 if res.tier == "quick" else 16)]
+    with cf.ThreadPoolExecutor(4) as ex:
+        sts = list(ex.map(lambda i: ramcheck.check_compiled(Ps[i], cases[i], wd, "trace_p%d" % i, res, "C02", n_traces=6,
+                                                            rng=random.Random(seed() + i)), sel))
+    res.cov["compiled_trace_status"] = {k: sum(1 for s in sts if s["status"] == k) for k in set(s["status"] for s in sts)}
+
+def programs(s, n):
+    # the second half avoids record/ADT types so that the compiled traces can be validated by spec/Ram.tla
+    return gen.programs(s, n - n // 2) + gen.programs(s + 1, n // 2, features=[f for f in gen.ALL_FEATURES if f not in ("rec", "adt")])
+
 def run(tier, replay=None):
-    return evalprop.run_eval("C02", tier, lambda s, n: gen.programs(s, n), configs,
-                             ["the C++ compiler is trusted"], n=(5, 60), max_cases=(12, 64))
+    return evalprop.run_eval("C02", tier, programs, configs,
+                             ["the C++ compiler is trusted", "compiled statement traces are validated for programs without record/ADT types at -j1"],
+                             n=(5, 60), max_cases=(12, 64), post=post)
